@@ -458,3 +458,111 @@ def types_eq(R):
     R.bounded("C09.types.eq", T + "::PrimitiveType.__eq__", bad is None, n,
               detail="exhaustive over the 63-type internal universe" if bad is None else f"__eq__({bad[0]}, {bad[1]}) = {bad[2]} differs from structural equality",
               replay=None)
+
+
+# ---------------------------------------------------------------------------
+# end to end over the spellable types: accept/reject and static types in the compiled module
+
+SPELL = {"float": ("S", "f", ()), "int": ("S", "i", ()), "uint": ("S", "u", ())}
+for _c, _n in (("float", "f"), ("int", "i"), ("uint", "u")):
+    for _k in (2, 3, 4):
+        SPELL[f"{_c}{_k}"] = ("V", _n, (_k,))
+SPELL["float3x3"] = ("M", "f", (3, 3))
+SPELL["float4x4"] = ("M", "f", (4, 4))
+UNSPELL = {v: k for k, v in SPELL.items()}
+
+
+def ir_desc(t):
+    import nsl.LinearIR as IR
+    if isinstance(t, IR.IntegerType):
+        return ("S", "u" if t.Unsigned else "i", ())
+    if isinstance(t, IR.FloatType):
+        return ("S", "f", ())
+    if isinstance(t, IR.VectorType):
+        return ("V", ir_desc(t.ElementType)[1], (t.Size,))
+    if isinstance(t, IR.MatrixType):
+        return ("M", ir_desc(t.ElementType)[1], (t.RowCount, t.ColumnCount))
+    return ("?", type(t).__name__, ())
+
+
+def compile_quiet(src, options=None):
+    """-> (result|None, exception|None).  SystemExit (syntax error) is reported as exception."""
+    import io, contextlib
+    from nsl import Compiler
+    buf = io.StringIO()
+    try:
+        with contextlib.redirect_stdout(buf):
+            r = Compiler.Compiler().Compile(src, options or {})
+        return r, None
+    except BaseException as e:
+        if isinstance(e, KeyboardInterrupt):
+            raise
+        return None, e
+
+
+def _e2e_one(R, opname):
+    import nsl.LinearIR as IR
+    for ln, L in SPELL.items():
+        for rn, Rr in SPELL.items():
+            exp = expected_concrete(opname, L, Rr)
+            if exp == DONTCARE:
+                continue
+            if exp == REJECT:
+                tn = ln
+            else:
+                res = dl2(exp.get("result") or exp["result_any"][0])
+                tn = UNSPELL.get(res)
+                if tn is None:
+                    continue          # result type not spellable (cannot be written as a return type)
+            src = f"export function f({ln} a, {rn} b) -> {tn} {{ return (a {OPSTR[opname]} b); }}"
+            oid = f"C09.e2e[{opname},{ln},{rn}]"
+            fn = "nsl.Compiler::Compiler.Compile"
+            r, exc = compile_quiet(src)
+            rp = script("""
+                import io, contextlib
+                from nsl import Compiler
+                src = {{src}}
+                try:
+                    with contextlib.redirect_stdout(io.StringIO()):
+                        r = Compiler.Compiler().Compile(src)
+                    out = 'accepted' if r is not None else 'rejected (None)'
+                except BaseException as e:
+                    out = 'rejected (%s: %s)' % (type(e).__name__, e)
+                print(src); print('compiler:', out, '; property C09 expects:', {{want}})
+                if out.startswith('accepted') != ({{want}} == 'accepted'): print('REPLAY-CONFIRMED')
+                """, src=src, want="rejected" if exp == REJECT else "accepted")
+            if exp == REJECT:
+                R.check(oid, fn, r is None, detail=f"`{src}` is accepted but the property rejects {ln} {OPSTR[opname]} {rn}", replay=rp)
+                continue
+            if r is None:
+                R.check(oid, fn, False, detail=f"`{src}` is rejected ({type(exc).__name__ if exc else 'pass failed'}: {str(exc)[:120]}) but the property accepts it with result {tn}", replay=rp)
+                continue
+            # static types in the compiled module
+            f = r.IRModule.Functions["f"]
+            instrs = f.Instructions
+            ret = [i for i in instrs if isinstance(i, IR.ReturnInstruction)]
+            ok = bool(ret) and ret[0].Value is not None and ir_desc(ret[0].Value.Type) == res
+            det = f"`{src}`: returned value has static type {ir_desc(ret[0].Value.Type) if ret and ret[0].Value is not None else None}, property says {res}"
+            if ok and exp.get("ops") and isinstance(ret[0].Value, IR.BinaryInstruction):
+                want = [dl2(x) for x in exp["ops"]]
+                got = [ir_desc(v.Type) for v in ret[0].Value.Values]
+                if got != want:
+                    ok = False
+                    det = f"`{src}`: operands reach the operator with types {got}, property says {want}"
+            R.check(oid, fn, ok, detail=det, replay=None)
+
+
+def _mk_e2e(opname):
+    @family(f"C09.e2e.{opname}", props=["C09"],
+            functions=["nsl.Compiler::Compiler.Compile", "nsl.passes.ComputeTypes::ComputeTypeVisitor._ProcessExpression",
+                       "nsl.ast::BinaryExpression.ResolveType", "nsl.passes.AddImplicitCasts::AddImplicitCastVisitor.v_BinaryExpression",
+                       "nsl.LinearIR::BinaryInstruction.FromOperation", "nsl.passes.LowerToIR::LowerToIRVisitor.v_BinaryExpression"],
+            assumptions=["finite domain enumerated completely: 13 operators x 14 x 14 spellable operand types, each compiled by the real Compiler (exhaustive-finite, no solver)"])
+    def fam(R, opname=opname):
+        _e2e_one(R, opname)
+    fam.__doc__ = f"End to end for operator {opname}: accept/reject of `function f(L a, R b) -> T {{ return (a OP b); }}` and the static result/operand types in the compiled module, all spellable L, R."
+    return fam
+
+
+for _o in BINOPS:
+    _mk_e2e(_o)
